@@ -173,6 +173,15 @@ class ArityChecker(MultiFunction):
             # argument numbers (ignoring parts)
             numbers = set(tuple(sorted(set(arg[0].number() for arg in op))) for op in ops)
             if () in numbers:  # Allow e.g. <v[0], 0, v[1]> but not <v[0], u[0]>
+                # ... and not <v[0], f>, which is affine, not linear, in v
+                if any(
+                    not op and not isinstance(component, Zero)
+                    for op, component in zip(ops, o.ufl_operands)
+                ):
+                    raise ArityMismatch(
+                        "Listtensor components without arguments must be zero when "
+                        "other components depend on arguments."
+                    )
                 numbers.remove(())
             if len(numbers) > 1:
                 raise ArityMismatch(
